@@ -211,6 +211,7 @@ impl Property for C10 {
             _ => {}
         }
         let mut find = FindScenario::new(spec, vec![]);
+        find.gen_extras(rng, true);
         find.mutations = mutations;
         find.record_delim = 0;
         Sc {
@@ -264,6 +265,8 @@ impl Property for C10 {
         }
         // ---- pass 1 (read-only) on A
         let mut p1 = FindScenario::new(Default::default(), sc.argv_print());
+        p1.extras_pre = sc.find.extras_pre.clone();
+        p1.extras_global = sc.find.extras_global.clone();
         p1.record_delim = 0;
         let o1 = run_find_prebuilt(&p1, ctx, a.clone());
         rep.executions += 1;
